@@ -557,6 +557,8 @@ ToolNext == TrToolCrypt \/ TrToolGenKey \/ TrToolSum \/ TrToolSumCheck \/ TrTool
 (* generator emits.  elf.stack: no object forces an executable stack.      *)
 TrAsmPermute == IsEv("asm.permute") /\ LET ev == T[l] IN
   Step(objs, <<Permute(ev["in"], ev.r), 1, 1, 1>>, <<ev.out, ev.regs, ev.sp, ev.guard>>)
+\* ascon_backend_free of an assembly back end: registers, stack pointer and all memory as the ABI requires
+TrAsmFree == IsEv("asm.free") /\ LET ev == T[l] IN Step(objs, <<1, 1, 1>>, <<ev.regs, ev.sp, ev.guard>>)
 TrAsmSelfTest == IsEv("asm.selftest") /\ LET ev == T[l] IN Step(objs, <<1>>, <<ev.ok>>)
 TrGenDiff == IsEv("gen.diff") /\ LET ev == T[l] IN Step(objs, <<1, 1>>, <<ev.generated, ev.equal>>)
 TrElfStack == IsEv("elf.stack") /\ LET ev == T[l] IN Step(objs, <<0>>, <<ev.exec>>)
@@ -564,7 +566,7 @@ TrElfStack == IsEv("elf.stack") /\ LET ev == T[l] IN Step(objs, <<0>>, <<ev.exec
 \* and exactly the permutation calls the specification predicts from public lengths
 TrCtCall == IsEv("ct.call") /\ LET ev == T[l]  p == Predicted(ev) IN
   Step(objs, <<1, 0, IF p = <<"unpredicted">> THEN ev.perm ELSE p, 1>>, <<ev.vg, ev.errors, ev.perm, ev.guard>>)
-AsmNext == TrCtCall \/ TrAsmPermute \/ TrAsmSelfTest \/ TrGenDiff \/ TrElfStack
+AsmNext == TrCtCall \/ TrAsmFree \/ TrAsmPermute \/ TrAsmSelfTest \/ TrGenDiff \/ TrElfStack
 
 -----------------------------------------------------------------------------
 Next == TrReset \/ PermNext \/ SpongeNext \/ AeadNext \/ AeadIncNext \/ KdfNext \/ IsapNext \/ PrngNext \/ MiscNext \/ ExtraNext \/ BaNext \/ MaskedNext \/ ToolNext \/ AsmNext
